@@ -66,6 +66,16 @@ CHECKS = {
    note="Trusted: Coq kernel; hand models Model/LexAlpha.v, Model/LexDelta.v (validated on millions of inputs by their authors and on the exhaustive scope at every run); UTF-8 decoding glue in the driver. Fixed: D4 (decimal overflow), D8 (CRLF offsets). Known findings K1-K6. Print Assumptions: closed.",
    technique="Coq proofs on executable lexer models (spans, values, escapes, layout invariance) + exhaustive small-scope differential testing of both implementations against both models and each other",
    design="5/C14"),
+ "C18": dict(
+   text="The decision logic of the command line tool is small enough to be modelled completely (backend = flag, else environment, else config, else default; exit status 0 iff compilation and the invoked backend succeeded; backend never invoked after a failed compilation; one .pn.ll per module under --out-dir) and the corresponding Coq theorems are immediate; the weight of this property is the correspondence: the real binary built from /repo (alpha + LLVM) is run on valid / multi-file / invalid / mixed inputs x build/run/emit x sampled combinations of --silent --verbose --color --arrows --out-dir --backend --config --wasm and PENNE_BACKEND/PENNE_LLI, with stub back ends that record their invocation and exit with 0, 3, SIGSEGV or do not exist; exit status, invoked backend, rendered diagnostics (no ANSI escapes under --color=never, ASCII only under --arrows=ascii), the IR files (validated by llvm-as, wasm32 triple under --wasm) are compared with the extracted model.",
+   note="Trusted: clap, process spawning, file system (exercised, not modelled); Coq kernel. Fixed: D23 (host triple in per-module IR under --wasm). Known finding D17 (absolute input path escapes --out-dir). Print Assumptions: closed.",
+   technique="Coq decision model (proved immediate properties) + sampled configuration-space correspondence against the real binary with recording stub back ends",
+   design="5/C18"),
+ "C02": dict(
+   text="Partial by nature: absence of panics in a 3500-line type inference engine and inside LLVM cannot be proved with a hand model; what is proved (Coq) is the error-accumulation algebra of the resolver: compilation succeeds iff nothing in the resolved tree is an error or poisoned, a failure with an EMPTY error list requires a Poisoned leaf, and where errors are collected rather than short-circuited an Error leaf always surfaces. The property itself is decided by exploration: the whole pipeline (lex .. generate_ir, LLVM verifier included) runs in isolated workers on mutated corpus files, generated programs with injected faults, token soup, CRLF variants, ALL token sequences up to a small length (exhaustive), multi-module sets and nesting depth up to 256; every outcome other than success or failure-with-diagnostics (panic site, signal, timeout, empty error list) is a violation keyed by site, so that listed findings do not mask new ones.",
+   note="Trusted: harness worker isolation; Coq kernel for the algebra. Known findings D11 (typer.rs:2909 on the repo's own sample), D15 (print!/format! of aggregates segfaults), D21 (resolver.rs:1000). Fixed: D20. Print Assumptions: closed.",
+   technique="Coq proof of the poison/error accumulation algebra + crash-stream exploration in isolated processes with site-keyed findings",
+   design="5/C02"),
 }
 
 NOT_YET = {
